@@ -2838,12 +2838,17 @@ def _let_ast(form: ISeq, ctx: AnalyzerContext) -> Let:
                     "let binding name must be a symbol", form=name
                 )
 
+            # Binding inits always produce a value, even when the let itself is
+            # in a statement position
+            with ctx.expr_pos():
+                init = _analyze_form(value, ctx)
+
             binding = Binding(
                 form=name,
                 name=name.name,
                 local=LocalType.LET,
                 tag=_tag_ast(_tag_meta(name), ctx),
-                init=_analyze_form(value, ctx),
+                init=init,
                 children=vec.v(INIT),
                 env=ctx.get_node_env(),
             )
@@ -3013,11 +3018,16 @@ def _loop_ast(form: ISeq, ctx: AnalyzerContext) -> Loop:
                     "loop binding name must be a symbol", form=name
                 )
 
+            # Binding inits always produce a value, even when the loop itself is
+            # in a statement position
+            with ctx.expr_pos():
+                init = _analyze_form(value, ctx)
+
             binding = Binding(
                 form=name,
                 name=name.name,
                 local=LocalType.LOOP,
-                init=_analyze_form(value, ctx),
+                init=init,
                 env=ctx.get_node_env(),
             )
             binding_nodes.append(binding)
